@@ -13,6 +13,13 @@ other fetchable names of those objects ("public") are generated too and are
 judged by the value oracle (5) alone.
 Templates come from an adversarial grammar  base x name x access form x
 consumption form x environment variant.
+The receiver may also be a LITERAL written in the template (string, number,
+list, dict, tuple, true/false/none; bare, parenthesised, inside constant
+filter / inline-if expressions, aliased by set / loop): the compiler may
+evaluate such accesses at compile time, so the environment probes are
+installed before compilation and every environment variant exists with the
+optimizer on and off.  The same name classification, access-form grammar,
+outcome oracle and value oracle apply.
 
 Oracle per render
  (1) no Tracer operation, no Tracer token in the output, the recording callable
@@ -46,7 +53,10 @@ LEVEL = "exploration"
 TECHNIQUE = "probe objects with caller-frame classification + tracer values + wrapped is_safe_attribute + AST check of generated code, over an adversarial access-path grammar"
 RULE = ("case = (base object expression [probe root/child/list element/method result/loop or "
         "macro or set alias | real function, method, generator, coroutine, async generator, "
-        "class, frame, code, traceback, namedtuple, module, str, int], name [forbidden: underscore / "
+        "class, frame, code, traceback, namedtuple, module, str, int | literal written in the "
+        "template: str, empty str, int, float, list, empty list, dict, empty dict, tuple, true, "
+        "false, none - bare / parenthesised / in a constant filter or inline-if / set or loop "
+        "alias], name [forbidden: underscore / "
         "pinned documented internal names / is_internal_attribute; or any other fetchable "
         "name of the real object, judged by the value oracle only], access "
         "form [dot, subscript (literal/concatenated/variable), |attr, map/select*/reject*/sort/"
@@ -54,7 +64,7 @@ RULE = ("case = (base object expression [probe root/child/list element/method re
         "str.format / format_map / Markup.format with positional, keyword, index, conversion, "
         "spec and nested-spec fields, stored bound format methods via set/attr/subscript/map/"
         "macro], consumption form, environment variant [sync/async x autoescape x undefined "
-        "type x immutable]); core = every (access form x object kind x name category) once, "
+        "type x immutable x optimizer on/off]); core = every (access form x object kind x name category) once, "
         "rest seeded sampling; distinct by that tuple; non-trivial when the harness itself can "
         "fetch the attribute from the object (so a bypass would have something to hand over)")
 LEVEL_TEXT = ("held on every generated (template, data) pair: tracer silence, undefined/SecurityError "
@@ -68,6 +78,7 @@ ASSUMPTIONS = [
     "PINNED_INTERNAL is a baseline pinned at jinja commit 2aee529: exactly the names the sandbox module's documented constants (UNSAFE_GENERATOR_ATTRIBUTES, UNSAFE_COROUTINE_ATTRIBUTES, UNSAFE_ASYNC_GENERATOR_ATTRIBUTES) and the is_internal_attribute docstring (mro of a class) name as internal; it is not read from the module at run time; a deliberate upstream change of that list needs the baseline updated",
     "value oracle: frame, code and traceback objects, dicts containing '__builtins__' (function globals, builtins), module __dict__s and type objects are interpreter internals that no attribute of the generated data objects may hand to a template; the data objects were chosen so that none of their public attributes legitimately has such a value (checked by the harness per case: a public name whose own value is of such a kind is a reported violation only if the sandbox hands it over)",
     "item access with underscore keys on mappings is not attribute access and is not generated",
+    "literal receivers: the forbidden names of a literal are those of the equal Python value (same classification as for context objects); the dict literals used have no underscore keys",
 ]
 NSHARDS = {"quick": 16, "thorough": 16}
 BUDGET_S = {"quick": 20, "thorough": 400}
@@ -79,7 +90,9 @@ FLOORS = {
                            "real_object_cases": 1000, "format_cases": 1000,
                            "public_controls_ok": 32, "value_oracle_checks": 9000,
                            "dangerous_value_cases": 220, "pinned_internal_cases": 40,
-                           "public_name_cases": 120, "value_controls_ok": 32}},
+                           "public_name_cases": 120, "value_controls_ok": 32,
+                           "literal_receiver_cases": 450, "literal_forbidden_direct_cases": 180,
+                           "unoptimized_renders": 500}},
     "thorough": {"evaluations": 60000, "distinct": 50000,
                  "counters": {"probe_fetches": 250000, "consults": 80000, "rule3_checks": 50000,
                               "nonprotocol_fetches": 50000, "sink_undefined": 5000,
@@ -87,7 +100,9 @@ FLOORS = {
                               "real_object_cases": 20000, "format_cases": 20000,
                               "public_controls_ok": 32, "value_oracle_checks": 300000,
                               "dangerous_value_cases": 5000, "pinned_internal_cases": 1000,
-                              "public_name_cases": 4000, "value_controls_ok": 32}},
+                              "public_name_cases": 4000, "value_controls_ok": 32,
+                              "literal_receiver_cases": 4000, "literal_forbidden_direct_cases": 1500,
+                              "unoptimized_renders": 6000}},
 }
 
 # ------------------------------------------------------------------- data
@@ -129,6 +144,25 @@ PINNED_INTERNAL = {
 }
 REAL_KINDS = ["function", "method", "generator", "coroutine", "asyncgen", "class", "frame",
               "code", "traceback", "namedtuple", "module", "str", "int", "builtin"]
+#: receivers that are LITERALS written in the template (no context object at
+#: all): kind -> (template text, the equal Python value used to classify names).
+#: The compiler may evaluate attribute access on them at compile time (constant
+#: folding); the sandbox has to apply there as well.
+LITERALS = {
+    "lit_str": ("'abc'", "abc"),
+    "lit_empty_str": ("''", ""),
+    "lit_int": ("42", 42),
+    "lit_float": ("1.5", 1.5),
+    "lit_list": ("[1, 'a']", [1, "a"]),
+    "lit_empty_list": ("[]", []),
+    "lit_dict": ("{'a': 1}", {"a": 1}),
+    "lit_empty_dict": ("{}", {}),
+    "lit_tuple": ("(1, 2)", (1, 2)),
+    "lit_true": ("true", True),
+    "lit_false": ("false", False),
+    "lit_none": ("none", None),
+}
+LITERAL_KINDS = list(LITERALS)
 
 
 def make_real(kind):
@@ -172,6 +206,8 @@ def make_real(kind):
         return 42, None
     if kind == "builtin":
         return len, None
+    if kind in LITERALS:
+        return LITERALS[kind][1], None
     raise AssertionError(kind)
 
 
@@ -256,6 +292,27 @@ REAL_BASES = {
     "loop_var": ("{% for b in [r] %}BODY{% endfor %}", "b", None),
     "macro_param": ("{% macro bm(b) %}BODY{% endmacro %}{{ bm(r) }}", "b", None),
 }
+
+#: literal receivers: L = the literal text; bare, parenthesised, and wrapped in
+#: expressions that are themselves compile-time constants (filter on a
+#: constant, inline-if with constant test, constant alias)
+LITERAL_BASES = {
+    "literal": ("BODY", "L", None),
+    "literal_paren": ("BODY", "(L)", None),
+    "literal_const_filter": ("BODY", "(L|default(0))", None),
+    "literal_const_condexpr": ("BODY", "(L if true else 0)", None),
+    "literal_set_alias": ("{% set b = L %}BODY", "b", None),
+    "literal_loop_var": ("{% for b in [L] %}BODY{% endfor %}", "b", None),
+}
+
+
+def bases_for(obj):
+    if obj == "probe":
+        return PROBE_BASES
+    if obj in LITERALS:
+        return LITERAL_BASES
+    return REAL_BASES
+
 
 # access forms: text -> produce (prelude, E, valued)
 #   B = base expression, N = name; valued = E evaluates to the attribute value
@@ -376,8 +433,10 @@ GENERIC_TOKENS = ["<class '", "<frame ", "<code object", "<built-in method", "<b
 
 
 def compose(case):
-    bases = PROBE_BASES if case["obj"] == "probe" else REAL_BASES
-    wrap, bexpr, parent = bases[case["base"]]
+    wrap, bexpr, parent = bases_for(case["obj"])[case["base"]]
+    if case["obj"] in LITERALS:
+        lit = LITERALS[case["obj"]][0]
+        wrap, bexpr = wrap.replace("L", lit), bexpr.replace("L", lit)
     name = case["name"]
     prelude, expr, valued = ACCESS[case["access"]]
     n1, n2 = _split(name)
@@ -402,12 +461,14 @@ def get_env(case):
     import jinja2
     from jinja2.sandbox import ImmutableSandboxedEnvironment, SandboxedEnvironment
 
-    key = (case["async"], case["autoescape"], case["undefined"], case["immutable"])
+    optimized = case.get("optimized", True)
+    key = (case["async"], case["autoescape"], case["undefined"], case["immutable"], optimized)
     env = _envs.get(key)
     if env is None:
         cls = ImmutableSandboxedEnvironment if case["immutable"] else SandboxedEnvironment
         env = cls(enable_async=case["async"], autoescape=case["autoescape"],
-                  undefined=getattr(jinja2, case["undefined"]), cache_size=0)
+                  undefined=getattr(jinja2, case["undefined"]), cache_size=0,
+                  optimized=optimized)
         env.vt_orig_isa = env.is_safe_attribute
         _envs[key] = env
     return env
@@ -555,15 +616,24 @@ def run_case(ctx, case, count=True):
                 ctx.count("nonprotocol_fetches")
         if case["async"]:
             ctx.count("async_renders")
-        if not is_probe:
+        if case["obj"] in LITERALS:
+            ctx.count("literal_receiver_cases")
+            ctx.count("literal_receiver_cases:" + ("optimized" if case.get("optimized", True)
+                                                   else "unoptimized"))
+            if forbidden and case["base"] in ("literal", "literal_paren"):
+                ctx.count("literal_forbidden_direct_cases")
+        elif not is_probe:
             ctx.count("real_object_cases")
+        if not case.get("optimized", True):
+            ctx.count("unoptimized_renders")
         if case["access"] in FORMAT_ACCESS:
             ctx.count("format_cases")
         ctx.count("value_oracle_checks", log.value_checks)
         ctx.dist([case[k] for k in ("obj", "base", "name", "access", "consume", "async",
-                                    "autoescape", "undefined", "immutable")])
+                                    "autoescape", "undefined", "immutable")]
+                 + [case.get("optimized", True)])
     where = f"{source!r} (obj={case['obj']}, async={case['async']}, autoescape={case['autoescape']}, " \
-            f"undefined={case['undefined']}) -> {exc or out!r}"
+            f"undefined={case['undefined']}, optimized={case.get('optimized', True)}) -> {exc or out!r}"
     # ---- (1) tracer silence / tokens / hand-over
     if tracer_ops:
         ctx.violation(f"tracer-used:{mech}",
@@ -732,18 +802,26 @@ def value_control(ctx, is_async, autoescape):
 # ------------------------------------------------------------------ cases
 def env_variant(i):
     return {"async": i % 3 == 0, "autoescape": i % 2 == 0,
-            "undefined": UNDEFINEDS[i % 3 if i % 5 else (i // 5) % 3], "immutable": i % 7 == 0}
+            "undefined": UNDEFINEDS[i % 3 if i % 5 else (i // 5) % 3], "immutable": i % 7 == 0,
+            "optimized": i % 4 != 3}
 
 
 def applicable(case):
-    bases = PROBE_BASES if case["obj"] == "probe" else REAL_BASES
-    parent = bases[case["base"]][2]
+    parent = bases_for(case["obj"])[case["base"]][2]
     if case["access"] in NEED_PARENT and parent is None:
         return False
     if case["obj"] == "coroutine" and case["base"] != "name" and case["async"]:
         # an async for/macro would await the coroutine object itself
         return False
     return True
+
+
+#: consumption forms rotated over the literal-receiver core: the precise
+#: outcome checks, printing, statement positions (set / if / filter argument)
+#: and chained access on the result
+LIT_SINKS = ["sink", "defined", "default", "print", "set_then_sink", "bool", "filter_arg",
+             "attr_mro", "call_subclasses", "string", "list_repr", "call", "init_globals",
+             "with_then_sink", "iter"]
 
 
 def core_cases():
@@ -769,15 +847,36 @@ def core_cases():
                      "access": access, "consume": sinks[i % len(sinks)], **env_variant(i)}
                 if applicable(c):
                     out.append(c)
+        for kind in LITERAL_KINDS:
+            pub = real_public_names(kind)
+            # literal receivers: every forbidden name of the literal's type + one
+            # rotating public name, bare literal and folded/aliased forms in turn
+            for name in real_forbidden_names(kind) + ([pub[i % len(pub)]] if pub else []):
+                i += 1
+                lb = list(LITERAL_BASES)
+                c = {"obj": kind, "base": lb[i % 2] if i % 3 else lb[2 + (i // 3) % 4], "name": name,
+                     "access": access, "consume": LIT_SINKS[i % len(LIT_SINKS)], **env_variant(i)}
+                if applicable(c):
+                    out.append(c)
     return out
 
 
 def random_case(rng):
     while True:
-        if rng.random() < 0.6:
+        x = rng.random()
+        if x < 0.5:
             obj = "probe"
             base = rng.choice(list(PROBE_BASES))
             name = rng.choice(P.PRIVATE_NAMES)
+        elif x < 0.65:
+            obj = rng.choice(LITERAL_KINDS)
+            base = rng.choice(list(LITERAL_BASES))
+            names = real_forbidden_names(obj)
+            if rng.random() < 0.15:
+                names = real_public_names(obj)
+            if not names:
+                continue
+            name = rng.choice(names)
         else:
             obj = rng.choice(REAL_KINDS)
             base = rng.choice(list(REAL_BASES))
@@ -790,7 +889,7 @@ def random_case(rng):
         access = rng.choice(VALUED_ACCESS if rng.random() < 0.4 else list(ACCESS))
         consume = rng.choice(CHECKED_CONSUME if rng.random() < 0.4 else list(CONSUME))
         c = {"obj": obj, "base": base, "name": name, "access": access,
-             "consume": consume, **env_variant(rng.randrange(210))}
+             "consume": consume, **env_variant(rng.randrange(420))}
         if applicable(c):
             return c
 
